@@ -74,6 +74,26 @@ func HLockstep() {
 	for i := 0; i < nmut; i++ {
 		tree = g.Mutate(tree)
 	}
+	if !reprLevel && t.Kind == "struct" && t.Repr == "tuple" && tree.K == refval.Map {
+		// a tuple cannot say that a field before a present one is absent: a type-level tree like
+		// that denotes a value without a representation; the two engines accept it and render it
+		// differently (recorded finding)
+		seenAbsent := false
+		for _, f := range t.Fields {
+			present := false
+			for i, k := range tree.Keys {
+				if k == f.Name && tree.L[i].K != refval.Absent {
+					present = true
+				}
+			}
+			if !present {
+				seenAbsent = true
+			} else if seenAbsent {
+				nd.KnownFinding("C13-tuple-value-without-representation-rendered-differently", true)
+				return
+			}
+		}
+	}
 	a := drive(typed.BindExplicit, name, tree, reprLevel)
 	b := drive(typed.Generated, name, tree, reprLevel)
 	nd.Assert(!a.panicked, "the reflection binding does not panic ["+name+"]")
